@@ -2,6 +2,8 @@ import AioProps.C09Lemmas
 import AioProps.C09Cex
 import AioProps.C09Conserve
 import AioProps.C09Pause
+import AioProps.C09Entry
+import AioProps.C09NoParkExc
 /-!
 # C09 — property theorems (body decoding: transparent, memory-bounded, always progresses)
 
@@ -211,19 +213,15 @@ theorem read_capped {c : Codec} (cms : Nat) (hc : cms ≠ 0) :
     intro w w' body h
     unfold reqLoop at h
     simp only at h
-    split at h
-    · simp at h
-    · split at h
-      · split at h <;> simp at h
-      · split at h
-        · simp at h
-        · split at h
-          · simp at h
-            obtain ⟨rfl, rfl⟩ := h
-            rename_i hnot _
-            simp [hc] at hnot
-            simpa using hnot
-          · exact ih _ _ _ h
+    repeat' split at h
+    all_goals first
+      | (simp at h; done)
+      | exact ih _ _ _ h
+      | (simp at h
+         obtain ⟨rfl, rfl⟩ := h
+         rename_i hnot _
+         simp [hc] at hnot
+         simpa using hnot)
 
 /-! ## counterexamples on the unchanged code (findings), evaluated by the kernel -/
 
@@ -333,10 +331,11 @@ theorem resumed_reader_raises_recorded_exception {c : Codec} (w : World c) (cms 
 /-- The same state on the code before the repair: with nothing buffered the resumed reader parks
 again on a fresh waiter — the recorded exception is never looked at (known finding K4). -/
 theorem resumed_reader_reparks_unrepaired {c : Codec} (w : World c) (cms : Nat) (e : Err)
-    (hf : w.waitRechecks = false) (hs : w.reqStarted = true) (hp : w.reqParked = true) (hw : w.waiter = false)
-    (hk : w.wakeExc = none) (he : w.exc = some e) (hb : w.buf = []) (heof : w.eof = false) (hc : w.connected = true) :
+    (hf : w.waitRechecks = false) (hf2 : w.waitEntryCheck = false) (hs : w.reqStarted = true) (hp : w.reqParked = true)
+    (hw : w.waiter = false) (hk : w.wakeExc = none) (he : w.exc = some e) (hb : w.buf = []) (heof : w.eof = false)
+    (hc : w.connected = true) :
     (reqRead w cms).2 = .blocked ∧ (reqRead w cms).1.waiter = true := by
-  simp [reqRead, reqLoop, hf, hs, hp, hw, hk, he, hb, heof, hc]
+  simp [reqRead, reqLoop, hf, hf2, hs, hp, hw, hk, he, hb, heof, hc]
 
 /-- **The parked-reader scenario on both versions** (kernel-evaluated): same input as
 `parked_reader_misses_error_counterexample`; before the repair the last `read()` step blocks
@@ -365,12 +364,12 @@ theorem read_returns_only_with_data_or_eof {c : Codec} (w w' : World c) (n : Opt
     | none =>
       simp only [hb, List.isEmpty_nil, Bool.true_and] at h
       split at h
-      · simp [parkOrFail] at h; split at h <;> simp at h
+      · simp only [parkOrFail] at h; (repeat' split at h) <;> simp at h
       · rename_i hne; simpa using hne
     | some k =>
       simp only [(hb' k).1, (hb' k).2, List.isEmpty_nil, Bool.true_and] at h
       split at h
-      · simp [parkOrFail] at h; split at h <;> simp at h
+      · simp only [parkOrFail] at h; (repeat' split at h) <;> simp at h
       · rename_i hne; simpa using hne
 
 /-- **One `readline()` holds at most `max_size` bytes** (`max_size` = the reader's high-water mark
@@ -422,7 +421,7 @@ theorem readline_result_bounded {c : Codec} (w w' : World c) (d : Bytes)
       simp at key
       split at h
       · simp at h; rw [← h.2]; exact key
-      · simp [parkOrFail] at h; split at h <;> simp at h
+      · simp only [parkOrFail] at h; (repeat' split at h) <;> simp at h
 
 /-- **Server-side close fails the request payload** (`RequestHandler.connection_lost`, clean FIN
 included): the payload carries `ConnectionResetError`, and a handler parked in `read()` on the
@@ -431,5 +430,48 @@ theorem server_close_fails_parked_handler {c : Codec} (w : World c) (cms : Nat)
     (hs : w.reqStarted = true) (hp : w.reqParked = true) (hw : w.waiter = true) :
     (connectionLostServer w).exc = some .connReset ∧ (reqRead (connectionLostServer w) cms).2 = .err .connReset := by
   simp [connectionLostServer, setExc, hw, reqRead, hs, hp]
+
+/-! ## the `_wait` that checks before parking (`waitEntryCheck = true`, i.e. `Gen.C09.waitChecksExceptionAtEntry = true`) -/
+
+/-- **Parking raises a recorded exception** (repaired `_wait`): wherever a kept reader would park,
+it raises the exception recorded on the stream instead. -/
+theorem park_raises_recorded_exception {c : Codec} (w : World c) (e : Err)
+    (hf : w.waitEntryCheck = true) (he : w.exc = some e) :
+    (parkOrFail w).2 = .err e ∧ (parkOrFail w).1.waiter = w.waiter := by
+  simp [parkOrFail, hf, he]
+
+/-- **A reader is never parked on a live waiter while an exception is recorded** (repaired
+`_wait`; all codecs, framings, limits; ALL operation sequences incl. `read(n)`, `readany()`,
+`readline()`, `BaseRequest.read()`, peer close on either side): `set_exception` fails a
+registered waiter, and nothing parks once an exception is recorded.  This is the negation of
+the known findings K4 and K13 for every reachable state. -/
+theorem never_parked_with_exception_recorded (c : Codec) (limit : Nat) (framing : Framing) (length : Nat)
+    (compressed sniff checkEof lax : Bool) (mt : Nat) (clearOnNeeds waitRechecks : Bool) (ops : List Op) :
+    let w := run (World.init c limit framing length compressed sniff checkEof lax mt clearOnNeeds waitRechecks true) ops
+    w.waiter = true → w.exc = none := by
+  intro w
+  have h0 : NPE (World.init c limit framing length compressed sniff checkEof lax mt clearOnNeeds waitRechecks true) := by
+    intro _ hw; simp [World.init] at hw
+  have hf : EntryOn (World.init c limit framing length compressed sniff checkEof lax mt clearOnNeeds waitRechecks true) := rfl
+  exact npe_run ops _ h0 (entry_run ops _ hf)
+
+/-- the same for the model instance the driver runs (flags taken from the probes of the source) -/
+theorem never_parked_with_exception_recorded_current (hfl : Gen.C09.waitChecksExceptionAtEntry = true)
+    (c : Codec) (limit : Nat) (framing : Framing) (length : Nat) (compressed sniff checkEof lax : Bool) (mt : Nat)
+    (ops : List Op) :
+    let w := run (World.init c limit framing length compressed sniff checkEof lax mt Gen.C09.needsInputClearsPause
+      Gen.C09.waitRechecksException Gen.C09.waitChecksExceptionAtEntry) ops
+    w.waiter = true → w.exc = none := by
+  rw [hfl]; exact never_parked_with_exception_recorded c limit framing length compressed sniff checkEof lax mt _ _ ops
+
+/-- **K13 on both versions** (kernel-evaluated): the parser holds a corrupt chunk as pending input;
+`readline()` takes the buffered bytes, the re-entrant refill makes the parser fail
+(`ContentEncodingError` recorded while the coroutine runs).  Before the repair the coroutine then
+parks — blocked, error recorded, waiter live; after it, `readline()` raises the error. -/
+theorem readline_after_own_refill_error_both_versions :
+    (step (k13Run false) .preadLine).2 = .blocked ∧ (step (k13Run false) .preadLine).1.exc = some .contentEncoding ∧
+    (step (k13Run false) .preadLine).1.waiter = true ∧
+    (step (k13Run true) .preadLine).2 = .err .contentEncoding ∧ (step (k13Run true) .preadLine).1.waiter = false := by
+  decide +kernel
 
 end Aio.C09
